@@ -89,6 +89,10 @@ impl<Octets> UncertainName<Octets> {
         if len > Name::MAX_LEN {
             return Err(UncertainDnameErrorEnum::LongName.into());
         }
+        if slice.is_empty() {
+            // The empty relative name, cf. `UncertainName::empty`.
+            return Ok(false);
+        }
         loop {
             let (label, tail) = Label::split_from(slice)?;
             if label.is_root() {
